@@ -597,7 +597,7 @@ def nowrite_job(job):
             subprocess.run(["/venv/bin/vsg", "-f", p] + (["--style", job["style"]] if job["style"] else []), stdout=subprocess.DEVNULL, stderr=subprocess.DEVNULL, cwd=d)
             exc = None
         else:
-            _, _, _, _, _, exc = _apply(p, job["style"], False)
+            _, _, _, _, _, exc = _apply(p, job["style"], False, conf_dicts=job.get("conf", ()))
         s1 = _stat(p)
         ls = sorted(os.listdir(d))
         out["runs"].append({"fix": False, "untouched": s0 == s1 and ls == ["t.vhd"]})
@@ -608,7 +608,7 @@ def nowrite_job(job):
         if not job.get("cli"):
             for fo in ({"fix": {"rule": {}}}, {"fix": {"rule": {"entity_004": [99999], "architecture_004": [99998]}}}):
                 sb = _stat(p)
-                had, upd, chg, fixv, rules, exc = _apply(p, job["style"], True, fix_only=fo)
+                had, upd, chg, fixv, rules, exc = _apply(p, job["style"], True, conf_dicts=job.get("conf", ()), fix_only=fo)
                 sa = _stat(p)
                 out.setdefault("fix_only_runs", []).append({"had_violations": had, "fixv": fixv, "untouched": sb == sa})
                 if had is None:
@@ -625,7 +625,7 @@ def nowrite_job(job):
                 rules = []
                 exc = None
             else:
-                had, upd, chg, fixv, rules, exc = _apply(p, job["style"], True)
+                had, upd, chg, fixv, rules, exc = _apply(p, job["style"], True, conf_dicts=job.get("conf", ()))
             sa = _stat(p)
             ls = sorted(os.listdir(d))
             replaced = sb["ino"] != sa["ino"] or sb["mtime_ns"] != sa["mtime_ns"]
@@ -694,6 +694,13 @@ def part_nowrite(res, tier, cov):
     jobs.append({"name": "synthetic/clean", "data": CLEAN_TEMPLATE.encode(), "style": None})
     jobs.append({"name": "synthetic/unrepairable", "data": UNREPAIRABLE_TEMPLATE.encode(), "style": None})
     jobs.append({"name": "synthetic/unrepairable-crlf", "data": UNREPAIRABLE_TEMPLATE.replace("\n", "\r\n").encode(), "style": None})
+    # clean as far as the rules can tell, but with trailing blanks the post-phase-1 normalisation would strip in
+    # memory: nothing is reported (whitespace_001 disabled / the file wrapped in a bare vsg_off), so nothing may be written
+    trailing = "\n".join(l + ("   " if i in (1, 3) else "") for i, l in enumerate(CLEAN_TEMPLATE.split("\n")))
+    jobs.append({"name": "synthetic/clean-trailing-blanks-rule-disabled", "data": trailing.encode(), "style": None, "conf": [{"rule": {"whitespace_001": {"disable": True}}}]})
+    jobs.append({"name": "synthetic/clean-trailing-blanks-rule-warning", "data": trailing.encode(), "style": None, "conf": [{"rule": {"whitespace_001": {"severity": "Warning"}}}]})
+    jobs.append({"name": "synthetic/clean-trailing-blanks-not-fixable", "data": trailing.encode(), "style": None, "conf": [{"rule": {"whitespace_001": {"fixable": False}}}]})
+    jobs.append({"name": "synthetic/clean-trailing-blanks-vsg_off", "data": ("-- vsg_off\n" + trailing + "-- vsg_on\n").encode(), "style": None})
     # end to end through the command line
     jobs.append({"name": "cli/clean", "data": CLEAN_TEMPLATE.encode(), "style": None, "cli": True, "expect_untouched_from_run": 0, "expect_site": "apply_rules.apply_rules", "expect_kind": "rewrittenWithoutViolations"})
     jobs.append({"name": "cli/unrepairable", "data": UNREPAIRABLE_TEMPLATE.encode(), "style": None, "cli": True, "expect_untouched_from_run": 0, "expect_site": "rule.Rule.fix", "expect_kind": "rewrittenUnchanged"})
